@@ -457,6 +457,10 @@ func (w *worker) process(in input, seed uint64, sampleMod uint32) {
 		if h.Sum32()%lm == 0 {
 			w.linted++
 			lr := lintOracle(w.linter, src, ir)
+			if lr.ok && h.Sum32()%(lm*3) == 0 && ir.err != nil == !ir.accepted && (ir.accepted || ir.err.Line == 1) {
+				w.dist["linted_at_other_sites"]++
+				lr = siteOracle(w.linter, src, ir)
+			}
 			if lr.ok {
 				if _, ok := ifEmbeddable(src); ok {
 					w.dist["linted_as_if_condition"]++
@@ -551,6 +555,10 @@ func main() {
 		if embeddable(f.Input) {
 			lr := lintOracle(newLinter(), f.Input, ir)
 			fmt.Printf("through Linter.Lint (text embedded after ${{ in a workflow): %s\n", lr.got)
+			if lr.ok && ir.err != nil == !ir.accepted && (ir.accepted || ir.err.Line == 1) {
+				lr = siteOracle(newLinter(), f.Input, ir)
+				fmt.Printf("through Linter.Lint (nested matrix array / include array / with: input): %s\n", lr.got)
+			}
 			if lr.ok {
 				_, okp := ifEmbeddable(f.Input)
 				_, _, okq := ifQuoted(f.Input)
